@@ -9,7 +9,7 @@ use mini_mcmc::core::MarkovChain;
 use mini_mcmc::distributions::{IsotropicGaussian, Proposal, Target};
 use mini_mcmc::hmc::HMC;
 use mini_mcmc::metropolis_hastings::MHMarkovChain;
-use mini_mcmc::nuts::NUTSChain;
+use mini_mcmc::nuts::{NUTSChain, NUTS};
 use mini_mcmc::verif_hooks;
 use rand_distr::{Exp1, StandardNormal, StandardUniform};
 use std::sync::mpsc;
@@ -286,14 +286,15 @@ where
                 bad = Some(format!("step {k}: {w}"));
                 break;
             }
-            if k >= 2 && k <= 5 {
-                if let Some(tr) = parse_step(&ev) {
-                    if tr.depth <= 10 {
-                        traces.push((k, tr));
-                    }
+            if let Some(tr) = parse_step(&ev) {
+                if tr.depth <= 9 {
+                    traces.push((k, tr));
                 }
             }
         }
+        // replay at most five transitions per history, those that met a NaN joint density first
+        traces.sort_by_key(|(k, tr)| (!tr.leaves.iter().any(|l| l.1.is_nan()), *k));
+        traces.truncate(5);
         (bad, traces)
     });
     out.count("predicate_evaluations");
@@ -313,6 +314,67 @@ where
     out.nontrivial(&format!("nuts:{}:{}:{d}:{seed}", T::NAME, target.name()));
 }
 
+/// `NUTS::run` (find_reasonable_epsilon, warm-up with dual averaging, collection) on a target that is NaN outside its
+/// support, two chains, under a watchdog; every returned draw is judged with the harness's own copy of the target
+fn nuts_run_case<T: Sc, B: AutodiffBackend>(out: &mut Out, rng: &mut Sm)
+where
+    StandardNormal: rand::distr::Distribution<T>,
+    StandardUniform: rand_distr::Distribution<T>,
+    Exp1: rand_distr::Distribution<T>,
+    T: rand_distr::uniform::SampleUniform + num_traits::FromPrimitive,
+{
+    static HANGS: std::sync::atomic::AtomicUsize = std::sync::atomic::AtomicUsize::new(0);
+    let id = out.fresh_id("nrun");
+    let d = rng.range(1, 2) as usize;
+    let (target, starts): (AnyTarget, Vec<Vec<f64>>) = if rng.coin(0.5) {
+        (AnyTarget::LogBox, (0..2).map(|_| (0..d).map(|_| rng.uniform(0.2, 0.8)).collect()).collect())
+    } else {
+        (AnyTarget::SqrtGamma { rate: rng.uniform(0.5, 3.0) }, (0..2).map(|_| (0..d).map(|_| rng.log_uniform(0.2, 2.0)).collect()).collect())
+    };
+    let seed = rng.next();
+    let (n_collect, n_discard) = (rng.range(5, 25) as usize, rng.range(5, 40) as usize);
+    if !out.selected(&id) {
+        return;
+    }
+    if HANGS.load(std::sync::atomic::Ordering::SeqCst) >= 2 {
+        out.count("nuts_run_skipped_after_hangs");
+        return;
+    }
+    let (tg, st) = (target.clone(), starts.clone());
+    let t0 = std::time::Instant::now();
+    let r = watchdog(40, move || {
+        let init: Vec<Vec<T>> = st.iter().map(|r| r.iter().map(|x| T::from64(*x)).collect()).collect();
+        let mut s = NUTS::<T, B, AnyTarget>::new(tg, init, T::from64(0.8)).set_seed(seed);
+        let t = s.run(n_collect, n_discard);
+        let v: Vec<f64> = t.to_data().convert::<f64>().to_vec().unwrap();
+        v
+    });
+    out.count("predicate_evaluations");
+    let size = (d * (n_collect + n_discard)) as u64;
+    match r {
+        None => {
+            HANGS.fetch_add(1, std::sync::atomic::Ordering::SeqCst);
+            out.fail(&id, "C14:hang:nuts-run", "NUTS::run did not return within 40 s on a small bounded-support problem", size,
+                format!("{} {} d={d} starts {starts:?} seed {seed} run({n_collect}, {n_discard})", T::NAME, target.spec::<T>()));
+        }
+        Some(Err(e)) => out.fail(&id, "C14:panic:nuts-run", "NUTS::run panicked on a bounded-support target", size, e),
+        Some(Ok(v)) => {
+            for row in v.chunks(d) {
+                if let Some(w) = bad_state(&target, row) {
+                    out.fail(&id, "C14:nuts-bad-state", "NUTS::run returned a zero-density / NaN-density / non-finite state", size, format!("{} {}: {w}", T::NAME, target.name()));
+                    break;
+                }
+            }
+            out.count(&format!("nuts_run_{}", target.name()));
+            let secs = t0.elapsed().as_secs_f64();
+            if out.notes.len() < 12 {
+                out.notes.push(format!("NUTS::run({n_collect},{n_discard}) on {} {} took {secs:.2} s", target.name(), T::NAME));
+            }
+        }
+    }
+    out.nontrivial(&format!("nrun:{}:{}:{d}:{seed}", T::NAME, target.name()));
+}
+
 pub fn run(out: &mut Out) {
     law_table(out);
     let mut rng = out.rng("c14");
@@ -325,6 +387,14 @@ pub fn run(out: &mut Out) {
         } else {
             hmc_case::<f64, Autodiff<NdArray<f64>>>(out, &mut rng);
             nuts_case::<f32, Autodiff<NdArray<f32>>>(out, &mut rng);
+        }
+    }
+    // the public entry point on NaN-region targets, warm-up included, under a watchdog ("does not panic or hang")
+    for i in 0..out.n(8, 120) {
+        if i % 2 == 0 {
+            nuts_run_case::<f64, Autodiff<NdArray<f64>>>(out, &mut rng);
+        } else {
+            nuts_run_case::<f32, Autodiff<NdArray<f32>>>(out, &mut rng);
         }
     }
     // find_reasonable_epsilon next to a support boundary (halving while the first leapfrog is non-finite)
